@@ -169,6 +169,20 @@ NONMUT = {
     'remask_or': lambda x, Pm: x.remask_or(True), 'expand_mask': lambda x, Pm: x.expand_mask(),
     'without_units': lambda x, Pm: x.without_units(), 'into_units': lambda x, Pm: x.into_units(),
     'broadcast_into': lambda x, Pm: x.broadcast_to((2,) + tuple(x.shape)),
+    # conversions with options that touch the mask (seeded change C08-J: Vector.int(top=, remask=True) OR-ed the
+    # out-of-range elements into the operand's own mask array, which a frozen operand refuses)
+    'int_top_remask': lambda x, Pm: (x.int(top=tuple(2 for _ in range(x.numer[0])), remask=True) if len(x.numer) == 1 and x.is_float()
+                                     else x.int(top=2, remask=True) if not x.numer and x.is_float() else x),
+    'int_top': lambda x, Pm: (x.int(top=tuple(2 for _ in range(x.numer[0]))) if len(x.numer) == 1 and x.is_float()
+                              else x.int(top=2) if not x.numer and x.is_float() else x),
+    'as_int': lambda x, Pm: x.as_int() if not x.is_bool() and type(x).INTS_OK else x,
+    'frac': lambda x, Pm: x.frac() if not x.numer and x.is_float() else x,
+    'sign': lambda x, Pm: x.sign() if not x.numer and not x.is_bool() else x,
+    'abs': lambda x, Pm: abs(x) if not x.numer and not x.is_bool() else x,
+    'max': lambda x, Pm: x.max() if not x.numer and not x.is_bool() else x,
+    'sort': lambda x, Pm: x.sort() if not x.numer and not x.is_bool() and x.shape else x,
+    'mask_where_ge': lambda x, Pm: x.mask_where_ge(1., 0.) if not x.numer and not x.is_bool() else x,
+    'clip_component': lambda x, Pm: x.clip_component(0, 0., 1.) if len(x.numer) == 1 and x.is_float() and hasattr(x, 'clip_component') else x,
 }
 
 
@@ -669,6 +683,10 @@ def run(ctx):
                 core.append([('make', mk), ('freeze', 0), ('derive', 0, via), ('mutate', 1, mu)])
             for dw in DIRECT:
                 core.append([('make', mk), ('freeze', 0), ('derive', 0, via), ('direct', 1, dw)])
+    # every non-mutating operation on every kind of object right after it was frozen (and on a view of it)
+    for mk in MAKERS:
+        for nm in sorted(NONMUT):
+            core.append([('make', mk), ('freeze', 0), ('nonmut', 0, nm)])
     for k in range(nh + len(core)):
         ops = core[k] if k < len(core) else gen_history(ctx.rng, ctx.tier, ctx.rng.randrange(6, 26))
         trace, fails, W = run_history(ops, Pm)
